@@ -80,7 +80,7 @@ theorem exit_data_prog_safe : safeExit false false Gen.exit_data_prog = true := 
 /-- in `on_data`, every path to `exit_data` has tested that the destination is not ("0.0.0.0", 0) and that the cell is not
     taken as a cell of an own circuit; every path to the re-dispatch `on_packet_from_circuit` (which runs a cell handler with
     the sender-chosen origin as source address) has tested that the message type is registered to arrive through an exit
-    (fixes 6e0f2ad, 5d1ce5c) -/
+    (fixes 93232d0, 85766ae) -/
 theorem on_data_prog_safe : safeOnData false false false Gen.on_data_prog = true := on_data_prog_safe'
 
 /-- none of the message types declared `from_exit=True` in the source is DataPayload: the re-dispatch of an exit message can
@@ -322,7 +322,7 @@ example : (run exSt [.data exSock.hopIp 999 7 ⟨.dom, [48], 0⟩ exDht, .open4 
     .resolved 7 0 [(false, zeroHost)]]).2 = [([Gen.PEER_FLAG_RELAY, Gen.PEER_FLAG_EXIT_BT], .resolve 7 [48] 0 exDht)] := by decide
 
 /-- a DATA cell on an own circuit whose payload is a DATA cell (id 1) or a ping (id 6) of this overlay is dropped (fixes
-    6e0f2ad, 5d1ce5c); a message type registered to arrive through an exit (here id 18) is handed to its handler; none of
+    93232d0, 85766ae); a message type registered to arrive through an exit (here id 18) is handed to its handler; none of
     them touches the exit socket -/
 example : (step { exSt with pfx := 0 :: 2 :: List.replicate 20 7, circs := [⟨555, [57], 4000, false⟩], exitIds := [17, 18] }
     (.data [57] 4000 555 ⟨.v4, zeroHost, 0⟩ ((0 :: 2 :: List.replicate 20 7) ++ [1, 0, 0, 0, 7, 1, 2]))).2 = [] := by decide
